@@ -95,6 +95,23 @@ def bitOK (get : Nat → Option BitSrc) (o W i : Nat) (b : Option Nat) : Bool :=
 def outOK (get : Nat → Option BitSrc) (o W : Nat) (bits : OutBits) : Bool :=
   decide (W ≤ bits.length) && (List.range bits.length).all fun i => bitOK get o W i (bits.getD i none)
 
+/-- condition on the integer parameters under which a setter takes a path (unsigned comparison of a whole
+parameter with a constant) -/
+inductive Cond where
+  | tt
+  | eq (f c : Nat) | ne (f c : Nat) | lt (f c : Nat) | le (f c : Nat) | gt (f c : Nat) | ge (f c : Nat)
+  | and (a b : Cond) | or (a b : Cond) | not (a : Cond)
+  deriving Repr
+
+def Cond.eval (v : Nat → Nat) : Cond → Bool
+  | .tt => true
+  | .eq f c => v f == c | .ne f c => v f != c
+  | .lt f c => decide (v f < c) | .le f c => decide (v f ≤ c)
+  | .gt f c => decide (v f > c) | .ge f c => decide (v f ≥ c)
+  | .and a b => a.eval v && b.eval v
+  | .or a b => a.eval v || b.eval v
+  | .not a => !a.eval v
+
 /-- a setter/parser pair as read off the source -/
 structure Pair where
   id : String
@@ -129,6 +146,10 @@ structure Pair where
   signedInts : List Nat := []
   /-- width of the C type of an integer parameter (0 for enumerations, flags, doubles, unions, text) -/
   intBits : List Nat := []
+  /-- a path variant: the layouts describe the setter on the path it takes when `setCond` holds for its parameters
+  (and the parser on the messages that path produces); `variantOf` is the id of the pair it is a path of -/
+  variantOf : String := ""
+  setCond : Cond := .tt
   deriving Repr
 
 def Pair.W (P : Pair) (o : Nat) : Nat := P.widths.getD o 0
